@@ -235,7 +235,11 @@ Definition native_withdraw (W : world) (who : N) : world * outcome * Z :=
   if zg (deleg W) who =? 0 then (W, Fail, 0) else
   let '(W1, oc, r) := payout W who in
   match oc with Ok => (restart_info W1 who, Ok, r) | _ => (W1, oc, 0) end.
+(** the distribution parameter withdraw_addr_enabled is kept in [wexists] under a reserved
+    pseudo-account (present = disabled), so that the world record stays small *)
+Definition A_WD_DISABLED : N := 99.
 Definition native_setwithdraw (W : world) (who to : N) : world * outcome :=
+  if bool_decide (A_WD_DISABLED ∈ wexists W) then (W, Fail) else
   if blocked to then (W, Fail)
   else (mkworld (bank W) (supply W) (wexists W) (deleg W) (unbond W) (<[who := to]> (wdaddr W)) (pending W) (broken W)
                 (grants W) (store W), Ok).
@@ -364,7 +368,7 @@ Definition run_tx (order : list N) (W0 : world) (value : Z) (t : top) : world * 
 Record ecase := mkecase {
   e_bal : list Z; e_deleg : list Z; e_reward : list Z; e_wd : list N;
   e_grants : list (N * bool * option Z); e_order : list N; e_slots : list (N * Z);
-  e_value : Z; e_top : top
+  e_value : Z; e_top : top; e_wd_disabled : bool
 }.
 Record eobs := mkeobs {
   b_ok : bool; b_bal : list Z; b_supply : Z; b_deleg : list Z; b_unbond : list Z; b_wd : list Z;
@@ -383,7 +387,8 @@ Definition nseq (n : nat) : list N := map N.of_nat (seq 0 n).
 (** initial world: balances as given (delegated coins already moved), delegations,
     pending rewards, withdraw addresses, the origin's grants *)
 Definition world_of (c : ecase) (mod_bal : list Z) : world :=
-  mkworld (of_list_from 0 (e_bal c ++ mod_bal)) 0 (list_to_set (nseq 5) ∪ list_to_set [7%N; 8%N; 9%N; 10%N; 11%N])
+  mkworld (of_list_from 0 (e_bal c ++ mod_bal)) 0
+          (list_to_set (nseq 5) ∪ list_to_set [7%N; 8%N; 9%N; 10%N; 11%N] ∪ (if e_wd_disabled c then {[A_WD_DISABLED]} else ∅))
           (of_list_from 0 (e_deleg c)) ∅ (wd_from 0 (e_wd c))
           (of_list_from 0 (e_reward c)) ∅
           (list_to_map (map (fun '(g, d, l) => ((g, d), l)) (e_grants c))) ∅.
